@@ -77,7 +77,7 @@ U('C09', 'C09_fault.cpp', defines=dict(DIM=2, NB=2, ELT='Tr', SLOT_CELLS=4, KMAX
 for cca in (0, 1):
     for cma in (0, 1):
         for cs in (0, 1):
-            quick = (cca, cma, cs) in ((0, 0, 0), (1, 1, 1), (0, 1, 0))
+            quick = (cca, cma, cs) in ((0, 0, 0), (1, 1, 1), (0, 1, 0), (1, 0, 0))
             U('C10', 'C10_alloc.cpp', defines=dict(DIM=1, NB=2, CFG_POCCA=cca, CFG_POCMA=cma, CFG_POCS=cs, SLOT_CELLS=2), unwind=5, timeout=1800, heap=128, tier='quick' if quick else 'thorough')
 U('C10', 'C10_alloc.cpp', defines=dict(DIM=2, NB=2, CFG_POCCA=0, CFG_POCMA=0, CFG_POCS=0, SLOT_CELLS=4), unwind=7, timeout=3600, heap=128, tier='thorough')
 
